@@ -125,6 +125,7 @@ class IOWorker (object):
       loop._workers.discard(self)
 
   def _do_send (self, loop):
+    if self.closed: return # Closed earlier in this round (e.g., by _do_recv)
     if self._connecting and self._try_connect(loop): return
     try:
       if len(self.send_buf):
